@@ -155,7 +155,7 @@ Definition rw_lock_code (oid : nat) (write : bool) (kont : lock_res -> code) : c
                    else acquire_blocking oid (rw_permits write) (fun ok => if ok then finish else Panic)).
 
 (* try_lock: on success of the semaphore the holder is updated; a re-entrant try_read finds itself
-   among the readers and reports failure *)
+   among the readers, gives the permit back (release, with its scheduling point) and reports failure *)
 Definition rw_try_code (oid : nat) (write : bool) (kont : lock_res -> code) : code :=
   sem_try_code oid (rw_permits write) (fun r =>
     match r with
@@ -163,14 +163,18 @@ Definition rw_try_code (oid : nat) (write : bool) (kont : lock_res -> code) : co
                match me e, get_obj st oid with
                | Some m, Some (ORwLock w rs s p) =>
                  match write, w, rs with
-                 | true, None, [] => Some (e, set_obj st oid (ORwLock (Some m) [] s p), [n_of_lock (if p then LkPoisoned else LkOk)])
+                 | true, None, [] => Some (e, set_obj st oid (ORwLock (Some m) [] s p), [n_of_lock (if p then LkPoisoned else LkOk); 0%N])
                  | false, None, _ =>
-                   if existsb (Nat.eqb m) rs then Some (e, st, [n_of_lock LkWouldBlock])
-                   else Some (e, set_obj st oid (ORwLock None (rs ++ [m]) s p), [n_of_lock (if p then LkPoisoned else LkOk)])
-                 | _, _, _ => Some (e, st, [n_of_lock (if p then LkPoisoned else LkOk)])      (* `_ => ()`: acquired stays true *)
+                   if existsb (Nat.eqb m) rs then Some (e, st, [n_of_lock LkWouldBlock; 1%N])
+                   else Some (e, set_obj st oid (ORwLock None (rs ++ [m]) s p), [n_of_lock (if p then LkPoisoned else LkOk); 0%N])
+                 | _, _, _ => Some (e, st, [n_of_lock (if p then LkPoisoned else LkOk); 0%N])      (* `_ => ()`: acquired stays true *)
                  end
                | _, _ => None end)
-             (fun a => match a with [0%N] => kont LkOk | [1%N] => kont LkPoisoned | _ => kont LkWouldBlock end)
+             (fun a => match a with
+                       | [_; 1%N] => sem_release_code oid (rw_permits write) (kont LkWouldBlock)
+                       | [0%N; _] => kont LkOk
+                       | [1%N; _] => kont LkPoisoned
+                       | _ => kont LkWouldBlock end)
     | _ => kont LkWouldBlock
     end).
 
